@@ -38,6 +38,9 @@ type c06Params struct {
 	// none: the Read times out), and writes 200 ms later, the expired read deadline still in place; it clears the
 	// read deadline only before it reads again
 	Poll bool `json:"poll,omitempty"`
+	// Duplex: both directions at once - on each end one task writes while another reads (Reads begin while a Write
+	// of the same connection is in flight and the other way round)
+	Duplex bool `json:"duplex,omitempty"`
 }
 
 func (c06) ID() string    { return "C06" }
@@ -110,6 +113,9 @@ func drawC06(src *vs.Src) *c06Params {
 		p.ChainPad = 40 + src.Intn(80) // Certificate message of about 15-45 KB
 	}
 	p.Poll = !p.ServerFirst && src.Bool(1, 4)
+	if src.Bool(1, 5) {
+		p.Duplex, p.Poll, p.Hold, p.ServerFirst = true, false, 0, false
+	}
 	if p.Seg == 2 || src.Bool(1, 2) {
 		// avoid quadratic cost of tiny buffers over large data: make sure one large buffer is in the cycle
 		p.RBuf = append(p.RBuf, 16384)
@@ -201,7 +207,51 @@ func (c06) Run(c *Case, src *vs.Src) *Result {
 	pair.Pipe.C.EOFJoin, pair.Pipe.S.EOFJoin = p.EOFJoin, p.EOFJoin
 	c2s, s2c := mkPayloads(src, p.C2S, 1), mkPayloads(src, p.S2C, 100)
 	var cs, ss c06Side
+	if p.Duplex {
+		cUp, sUp, cRd, sWr := false, false, false, false
+		w.Go("client", func() {
+			cs.HSErr = pair.C.Handshake()
+			cUp = true
+			if cs.HSErr != nil {
+				pair.C.Close()
+				return
+			}
+			if writeAll(pair.C, c2s, &cs) {
+				cs.CloseErr = pair.C.CloseWrite()
+			}
+			vs.Block(func() bool { return cRd }, vs.Now().Add(200*time.Second))
+			pair.C.Close()
+		})
+		w.Go("client-reader", func() {
+			vs.Block(func() bool { return cUp }, time.Time{})
+			if cs.HSErr == nil {
+				readToEnd(pair.C, p.RBuf, &cs)
+			}
+			cRd = true
+		})
+		w.Go("server", func() {
+			ss.HSErr = pair.S.Handshake()
+			sUp = true
+			if ss.HSErr != nil {
+				pair.S.Close()
+				return
+			}
+			readToEnd(pair.S, p.RBuf, &ss)
+			vs.Block(func() bool { return sWr }, vs.Now().Add(200*time.Second))
+			ss.CloseErr = pair.S.Close()
+		})
+		w.Go("server-writer", func() {
+			vs.Block(func() bool { return sUp }, time.Time{})
+			if ss.HSErr == nil {
+				writeAll(pair.S, s2c, &ss)
+			}
+			sWr = true
+		})
+	}
 	w.Go("client", func() {
+		if p.Duplex {
+			return
+		}
 		if cs.HSErr = pair.C.Handshake(); cs.HSErr != nil {
 			pair.C.Close()
 			return
@@ -226,6 +276,9 @@ func (c06) Run(c *Case, src *vs.Src) *Result {
 		pair.C.Close()
 	})
 	w.Go("server", func() {
+		if p.Duplex {
+			return
+		}
 		if ss.HSErr = pair.S.Handshake(); ss.HSErr != nil {
 			pair.S.Close()
 			return
